@@ -321,7 +321,8 @@ class Scn:
                     self.rec[self.cd] = dict(kind="caller", owner="caller", caller_fin=False)
                     n0 = len(r.datas)
                     self.arm(fault)
-                finalize = bool(op[1]) if k == "frd" else True
+                # frd_stale: already finalized caller data, with finalize=True and (op[1] == 0) finalize=False
+                finalize = bool(op[1]) if len(op) > 1 else True
                 self.it = lb["RI"]._from_render_data_(r, r.datas[self.cd], None, pads()["E"](), op[2] if k == "frd" else 1,
                                                       False, finalize=finalize)
                 self.it_state, self.it_data = "open", self.cd
@@ -498,7 +499,7 @@ class Scn:
 
 def ops_of(cfg):
     ops = [("render",), ("str",), ("draw",), ("drawa", 1, False), ("drawa", 2, True),
-           ("iter", 1, False), ("iter", 2, True), ("frd", 1, 1), ("frd", 0, 2), ("frd_stale",),
+           ("iter", 1, False), ("iter", 2, True), ("frd", 1, 1), ("frd", 0, 2), ("frd_stale", 1), ("frd_stale", 0),
            ("next",), ("seek0",), ("seekbad",), ("size",), ("close",), ("drop",), ("cdfin",),
            ("badargs", "render"), ("badargs", "draw"), ("badargs", "drawa"), ("badargs", "iter"), ("badargs", "frd")]
     if cfg.get("rich"):
